@@ -3,7 +3,7 @@ import Splipy.Lemmas.C17Array
 
 /-! Lemmas for C17: composition of re-indexing views (`Reindex.comp`). -/
 
-namespace Splipy
+namespace Splipy.MP
 
 namespace IdxE
 
@@ -170,4 +170,4 @@ theorem apply_comp {α : Type} [Inhabited α] (r2 r1 : Reindex) (a : NdArr α)
 
 end Reindex
 
-end Splipy
+end Splipy.MP
